@@ -1620,6 +1620,23 @@ def main(chk: C.Check, build: C.Build) -> None:
                        dict(rp, data_twin=d2, implementation_twin=out2))
         return out
 
+    # -- 0. known findings: re-observe the recorded witnesses --------------------
+    src, d1, d2 = WITNESS_DEFAULT
+    o1, o2 = run_impl(src, d1), run_impl(src, d2)
+    if canon(o1) != canon(o2):
+        chk.finding("default-filter-reads-force_liquid_default",
+                    f"{src} renders {o1[1]!r} for an object whose Python attribute force_liquid_default is true and {o2[1]!r} without it",
+                    {"source": src, "data": d1, "data_twin": d2, "implementation": o1, "implementation_twin": o2})
+    for src, meth in WITNESS_TRANSLATIONS:
+        o = hook_obj(1, [(meth, ("call", SENT))])
+        data = [("o", o), ("l", ("list", [o]))]
+        out = run_impl(src, data)
+        called = list(LOG.calls)
+        if leaks(out) or called:
+            chk.finding("translations-provider-rebindable-by-template",
+                        f"{src} calls the Python method {meth} of the context object bound to the template variable `translations` and renders its result ({out[1]!r:.60})",
+                        {"source": src, "data": data, "implementation": out, "calls": called})
+
     # -- 1. the getattr-by-name drops ------------------------------------------
     ka = kernel_a_items(thorough)
     for f in DROP_FAILURES[:3]:
@@ -1685,23 +1702,6 @@ def main(chk: C.Check, build: C.Build) -> None:
             if exp is not None and out[:2] != ("ok", exp):
                 report("translation-interpolation", f"expected {exp!r}, got {out[:2]!r}",
                        {"source": src, "data": [("o", o)], "implementation": out})
-
-    # -- 4. known findings: re-observe the recorded witnesses --------------------
-    src, d1, d2 = WITNESS_DEFAULT
-    o1, o2 = run_impl(src, d1), run_impl(src, d2)
-    if canon(o1) != canon(o2):
-        chk.finding("default-filter-reads-force_liquid_default",
-                    f"{src} renders {o1[1]!r} for an object whose Python attribute force_liquid_default is true and {o2[1]!r} without it",
-                    {"source": src, "data": d1, "data_twin": d2, "implementation": o1, "implementation_twin": o2})
-    for src, meth in WITNESS_TRANSLATIONS:
-        o = hook_obj(1, [(meth, ("call", SENT))])
-        data = [("o", o), ("l", ("list", [o]))]
-        out = run_impl(src, data)
-        called = list(LOG.calls)
-        if leaks(out) or called:
-            chk.finding("translations-provider-rebindable-by-template",
-                        f"{src} calls the Python method {meth} of the context object bound to the template variable `translations` and renders its result ({out[1]!r:.60})",
-                        {"source": src, "data": data, "implementation": out, "calls": called})
 
     # -- 5. correspondence ---------------------------------------------------------
     correspond_tolerant(chk, "c05a", ka, "ForLoop/TableRow/BlockDrop.__getitem__")
